@@ -62,6 +62,35 @@ def tie(tier, seed, replay):
     chunk = 96
     for i in range(0, len(cases), chunk):
         results += engine_tie.run(PROP, cases[i:i + chunk], tag="c01")
+    # second phase, "nearly saturated" inputs: the least model of a first-phase input with ONE head relation reset to its
+    # original rows.  The run then re-derives that relation only: iterations in which nothing but one relation (possibly one no
+    # rule of its SCC reads) grows, fixed points reached at once, heads handed to later strata at the exit of a looping SCC.
+    if not replay:
+        rng2 = lib.rng_for(seed, PROP, "saturated")
+        sat = []
+        for r in results:
+            if r.get("skipped") or not r["spec"] or len(sat) >= (24 if tier == "quick" else 200):
+                continue
+            p = r["case"]["prog"]
+            heads = sorted({h[0] for rule in p["rules"] for h in rule["heads"]})
+            if not heads:
+                continue
+            inputs = []
+            for k, inp in enumerate(r["case"]["inputs"]):
+                if r["spec"][k] is None or len(r["spec"][k]) > 150:
+                    continue
+                full = engine_tie.group_facts(r["spec"][k], p["rels"])
+                pref = [h for h in heads if h.startswith("wlog")] or heads
+                for reset in ([rng2.choice(pref)] if rng2.random() < 0.7 else [rng2.choice(heads)]):
+                    ni = {name: list(full[name][1]) for name, _, _ in p["rels"]}
+                    ni[reset] = list(inp.get(reset, []))
+                    for name in ni:
+                        rng2.shuffle(ni[name])
+                    inputs.append(ni)
+            if inputs:
+                sat.append(dict(id=r["case"]["id"] + "_sat", prog=p, inputs=inputs[:3], styles=["saturated"] * len(inputs[:3])))
+        for i in range(0, len(sat), chunk):
+            results += engine_tie.run(PROP, sat[i:i + chunk], tag="c01sat")
     mism, feats, shapes, distinct = [], {}, {}, set()
     nrec = 0
     nskipped = sum(1 for r in results if r.get("skipped"))
@@ -84,7 +113,7 @@ def tie(tier, seed, replay):
                    impl={k: v[1][:6] for k, v in __import__("gen.prog", fromlist=["x"]).canon_snap(r["impl"][0]["snaps"][-1]).items()} if r["impl"] and "snaps" in r["impl"][0] else r["impl"])
               for r in results[:3]]
     return dict(evaluations=sum(len(r["case"]["inputs"]) for r in results), distinct_nontrivial=len(distinct),
-                rule="random core programs (1-6 rules, 1-4 body items, relations of arity 1-3; shapes free/linear/non-linear/mutual/chain) x 3-4 input databases (empty, singleton, unequal, dense, chains); non-trivial = the plan has a looping SCC and the run derives at least one new fact; distinct = distinct (plan summary, input)",
+                rule="random core programs (1-6 rules, 1-4 body items, relations of arity 1-3; shapes free/linear/non-linear/mutual/chain) x 3-4 input databases (empty, singleton, unequal, dense, chains), then a second phase of nearly saturated inputs (the least model of a first-phase input with one head relation reset to its original rows); non-trivial = the plan has a looping SCC and the run derives at least one new fact; distinct = distinct (plan summary, input)",
                 samples=sample, distribution=dict(programs=len(results), shapes=shapes, features=feats, recursive_deriving_runs=nrec),
                 mismatches=mism,
                 trusted_base=["FRONT hook (ascent_macro/src/verif_hook.rs, feature verif_hooks) printing the MIR plan; gen/dl.py translating the dump into the Coq plan term; gen/prog.py generated crates + canonicaliser",
